@@ -11,6 +11,7 @@ import PdbVerif.Proofs.Digits
 import PdbVerif.Proofs.Format
 import PdbVerif.Proofs.FormatXyz
 import PdbVerif.Proofs.FormatRoundtrip
+import PdbVerif.Proofs.FormatReexport
 import PdbVerif.Proofs.Parse
 
 set_option linter.unusedVariables false
@@ -147,5 +148,76 @@ theorem roundtrip (a : Atom) (hf : Spec.Fits a) (hch : a.chainID ≠ [])
 
 example :=
   roundtrip demo demo_fits.1 demo_fits.2.1 demo_fits.2.2.1 demo_fits.2.2.2.1 demo_fits.2.2.2.2
+
+/-- the row read back is the original with every real attribute rounded to its printed precision, and it fits again -/
+theorem roundtrip_row_fits (a : Atom) (hf : Spec.Fits a) (hx : Spec.CoordInRange a.x) (hy : Spec.CoordInRange a.y)
+    (hz : Spec.CoordInRange a.z) :
+    Spec.Fits (Proofs.Line.readBack a) ∧ Spec.CoordInRange (Proofs.Line.readBack a).x ∧
+      Spec.CoordInRange (Proofs.Line.readBack a).y ∧ Spec.CoordInRange (Proofs.Line.readBack a).z :=
+  Proofs.Reexport.readBack_fits a hf hx hy hz
+
+/-- Writing the table that was read back again denotes the same values — every coordinate field again denotes the value
+    in `b` within half a unit of its own precision with enough decimals — and is the identical text: columns 1–30 and
+    67–80 always; a coordinate field unless its value sits exactly on a format-switch threshold or is zero; occupancy and
+    B-factor unless the value read back is zero (the first export may have printed `-0.00`; the exact-rational model has no
+    negative zero) in which case the field still denotes it. -/
+theorem reexport_ok (a : Atom) (hf : Spec.Fits a) (hch : a.chainID ≠ [])
+    (hx : Spec.CoordInRange a.x) (hy : Spec.CoordInRange a.y) (hz : Spec.CoordInRange a.z) :
+    ∃ b l1 l2, Gen.data2pdb_line a = .ok l1 ∧ Model.parseAtomLine l1 a.model = .ok b.toRow ∧
+      Gen.data2pdb_line b = .ok l2 ∧ Spec.reexportOK b l1 l2 = true := by
+  obtain ⟨hfb, hxb, hyb, hzb⟩ := Proofs.Reexport.readBack_fits a hf hx hy hz
+  refine ⟨Proofs.Line.readBack a, _, _, Proofs.Line.export_eq a hf hx hy hz, ?_,
+    Proofs.Line.export_eq _ hfb hxb hyb hzb, Proofs.Reexport.reexportOK_export a hf hx hy hz⟩
+  rw [Proofs.Parse.parseAtomLine_eq, Proofs.Line.parseRecord_export a hf hch hx hy hz]
+  rfl
+
+example := reexport_ok demo demo_fits.1 demo_fits.2.1 demo_fits.2.2.1 demo_fits.2.2.2.1 demo_fits.2.2.2.2
+
+/-- a row that fits whose occupancy prints as `-0.00` (the case the relaxed clause of `Spec.reexportOK` is for) -/
+example : Spec.Fits { demo with occ := -(1 / 1000) } ∧ Py.round (-(1 / 1000) : ℚ) 2 = 0 := by
+  refine ⟨?_, by decide +kernel⟩
+  have h := demo_fits.1
+  unfold Spec.Fits at h ⊢
+  unfold demo at h ⊢
+  refine ⟨h.1, h.2.1, h.2.2.1, h.2.2.2.1, h.2.2.2.2.1, h.2.2.2.2.2.1, h.2.2.2.2.2.2.1, h.2.2.2.2.2.2.2.1,
+    h.2.2.2.2.2.2.2.2.1, h.2.2.2.2.2.2.2.2.2.1, h.2.2.2.2.2.2.2.2.2.2.1, h.2.2.2.2.2.2.2.2.2.2.2.1,
+    h.2.2.2.2.2.2.2.2.2.2.2.2.1, h.2.2.2.2.2.2.2.2.2.2.2.2.2.1, h.2.2.2.2.2.2.2.2.2.2.2.2.2.2.1,
+    h.2.2.2.2.2.2.2.2.2.2.2.2.2.2.2.1, h.2.2.2.2.2.2.2.2.2.2.2.2.2.2.2.2.1, h.2.2.2.2.2.2.2.2.2.2.2.2.2.2.2.2.2.1,
+    h.2.2.2.2.2.2.2.2.2.2.2.2.2.2.2.2.2.2.1, by norm_num, by norm_num,
+    h.2.2.2.2.2.2.2.2.2.2.2.2.2.2.2.2.2.2.2.2.2⟩
+
+/-
+  Full statement first wanted (`reexport_same_value`): exporting the read-back row `b` and parsing again gives `b`.
+  False at two thresholds (see `reexport_value_drift_at_threshold`): proved for coordinates of `b` other than
+  999999.5 and −99999.5.
+-/
+/-- exporting the row that was read back and parsing it again gives exactly that row, unless one of its coordinates is
+    999999.5 or −99999.5 (where the format switches to zero decimals and half-even rounding moves the value by 0.5) -/
+theorem reexport_same_value_partial (a : Atom) (hf : Spec.Fits a) (hch : a.chainID ≠ [])
+    (hx : Spec.CoordInRange a.x) (hy : Spec.CoordInRange a.y) (hz : Spec.CoordInRange a.z)
+    (b : Atom) (hb : b = Proofs.Line.readBack a)
+    (nx : b.x ≠ (1999999 : ℚ) / 2 ∧ b.x ≠ -(199999 : ℚ) / 2)
+    (ny : b.y ≠ (1999999 : ℚ) / 2 ∧ b.y ≠ -(199999 : ℚ) / 2)
+    (nz : b.z ≠ (1999999 : ℚ) / 2 ∧ b.z ≠ -(199999 : ℚ) / 2) :
+    (Gen.data2pdb_line b >>= fun l => Model.parseAtomLine l b.model) = .ok b.toRow := by
+  subst hb
+  obtain ⟨hfb, hxb, hyb, hzb⟩ := Proofs.Reexport.readBack_fits a hf hx hy hz
+  rw [Proofs.Line.export_eq _ hfb hxb hyb hzb]
+  show Model.parseAtomLine _ _ = _
+  rw [Proofs.Parse.parseAtomLine_eq, Proofs.Line.parseRecord_export _ hfb hch hxb hyb hzb,
+    Proofs.Reexport.readBack_idem a hx hy hz nx ny nz]
+
+example : let b := Proofs.Line.readBack demo
+    (b.x ≠ (1999999 : ℚ) / 2 ∧ b.x ≠ -(199999 : ℚ) / 2) ∧ (b.y ≠ (1999999 : ℚ) / 2 ∧ b.y ≠ -(199999 : ℚ) / 2) ∧
+    (b.z ≠ (1999999 : ℚ) / 2 ∧ b.z ≠ -(199999 : ℚ) / 2) ∧ b.x = (19999 : ℚ) / 2 ∧ b.z = 0 := by decide +kernel
+
+/-- Remark (not a defect of the property as stated, which asks for the same value *to the printed precision*):
+    999999.46 is written `999999.5`, read back as 999999.5, written again as ` 1000000` and read back as 1000000;
+    likewise −99999.46 → `-99999.5` → ` -100000`. -/
+theorem reexport_value_drift_at_threshold :
+    Gen._format_xyz ((99999946 : ℚ) / 100) = .ok "999999.5".toList ∧
+    Gen._format_xyz ((1999999 : ℚ) / 2) = .ok " 1000000".toList ∧
+    Gen._format_xyz (-(9999946 : ℚ) / 100) = .ok "-99999.5".toList ∧
+    Gen._format_xyz (-(199999 : ℚ) / 2) = .ok " -100000".toList := by decide +kernel
 
 end Props.C02
